@@ -17,6 +17,13 @@ def _u(b):
     return IntShim.from_bytes(b, "big")
 
 
+def nat(x):
+    """Fully concrete proxy strings become native bytes (what dpkt would hand out)."""
+    if hasattr(x, "is_concrete") and x.is_concrete():
+        return bytes(x.e)
+    return x
+
+
 class _Seg:
     def __init__(self, raw):
         self._raw = raw
@@ -76,8 +83,8 @@ class IP:
         self.ttl = buf[8]
         self.p = buf[9]
         self.sum = _u(buf[10:12])
-        self.src = buf[12:16]
-        self.dst = buf[16:20]
+        self.src = nat(buf[12:16])
+        self.dst = nat(buf[16:20])
         ol = ((self._v_hl & 0xf) << 2) - 20
         if ol < 0:
             raise UnpackError("invalid header length")
@@ -106,8 +113,8 @@ class IP6:
         self.plen = _u(buf[4:6])
         self.nxt = buf[6]
         self.hlim = buf[7]
-        self.src = buf[8:24]
-        self.dst = buf[24:40]
+        self.src = nat(buf[8:24])
+        self.dst = nat(buf[24:40])
         body = buf[40:]
         if self.plen:
             body = body[:self.plen]
@@ -126,8 +133,8 @@ class Ethernet:
     def __init__(self, buf):
         if len(buf) < 14:
             raise NeedData("short Ethernet header")
-        self.dst = buf[0:6]
-        self.src = buf[6:12]
+        self.dst = nat(buf[0:6])
+        self.src = nat(buf[6:12])
         self.type = _u(buf[12:14])
         self.data = buf[14:]
         try:
